@@ -288,45 +288,66 @@ def r8(p, rep):
     rep.rule("C03.R8", "sequences that come from different arguments of a validation entry point are zipped only after their lengths were compared (a surplus / missing tensor is an error, not silently truncated)", "T-DOM (length comparison dominates zip(strict=False))", floor=3)
     from sa.cfg import CFG
 
+    cfgs = {}
+
+    def cfg_of(f):
+        if f.qualname not in cfgs:
+            cfgs[f.qualname] = CFG(f.node)
+        return cfgs[f.qualname]
+
+    def judge(f, at, e1, e2, o1, o2, key, site, shown):
+        """at: AST node whose dominating facts count; e1/e2: the two zipped expressions as written in f"""
+        a1, a2 = norm(e1), norm(e2)
+        ok = False
+        cfg = cfg_of(f)
+        facts = list(cfg.guards_of_ast(at))
+        # facts established by dominating calls of checking helpers; as for the inline comparisons, a later
+        # re-binding of the sequences (exprs_in = solve(...), tensors = [cast(t) for t in tensors]) keeps their
+        # number, so the comparison is accepted by the names it mentions
+        from sa.cfg import _facts_after_call
+
+        nd_at = cfg.node_for(at)
+        dom = cfg.dominators().get(nd_at.id, ()) if nd_at is not None else ()
+        for nd in cfg.nodes:
+            if nd.id in dom and nd.kind == "stmt" and isinstance(nd.ast, ast.Expr) and isinstance(nd.ast.value, ast.Call):
+                facts += _facts_after_call(nd.ast.value)
+        for t, pol in facts:
+            if isinstance(t, ast.Compare) and len(t.ops) == 1 and isinstance(t.ops[0], (ast.Eq, ast.NotEq)):
+                sides = {norm(t.left), norm(t.comparators[0])}
+                # the compared sequences are the zipped ones or the parameters they are derived from
+                alts1 = {f"len({x})" for x in {a1} | o1}
+                alts2 = {f"len({x})" for x in {a2} | o2}
+                if (sides & alts1) and (sides & alts2) and (isinstance(t.ops[0], ast.Eq) == pol):
+                    ok = True
+        rep.add("C03.R8", key, site, ok, f"reached only when len({a1}) == len({a2}) was established" if ok else f"`{shown[:60]}` pairs values that come from different arguments ({sorted(o1)} / {sorted(o2)}) without a preceding length comparison: with one tensor too many or too few the surplus is silently dropped and a plausible result is returned instead of the documented ValueError")
+
     for f in p.funcs.values():
         if not any(f.module.name.endswith(m) for m in VALIDATION_MODULES) or not isinstance(f.node, (ast.FunctionDef, ast.AsyncFunctionDef)):
             continue
-        cfg = None
         for c in walk_no_nested(f.node):
             if not (isinstance(c, ast.Call) and isinstance(c.func, ast.Name) and c.func.id == "zip" and len(c.args) == 2):
                 continue
             if any(k.arg == "strict" and isinstance(k.value, ast.Constant) and k.value.value is True for k in c.keywords):
                 continue
+            # a private module-level helper that zips two of its own parameters is judged at its call sites
+            if f.parent is None and f.cls is None and f.name.startswith("_") and all(isinstance(a, ast.Name) and a.id in f.params for a in c.args):
+                sites = [(g, cc) for g in p.funcs.values() if g.module is f.module and g is not f for cc in walk_no_nested(g.node) if isinstance(cc, ast.Call) and resolve_callee(p, cc, g.module) == ("func", f)]
+                if sites:
+                    for g, cc in sites:
+                        amap = {f.params[i]: a for i, a in enumerate(cc.args) if i < len(f.params) and not isinstance(a, ast.Starred)}
+                        amap.update({k.arg: k.value for k in cc.keywords if k.arg})
+                        e1, e2 = amap.get(c.args[0].id), amap.get(c.args[1].id)
+                        if e1 is None or e2 is None:
+                            continue
+                        o1, o2 = common.origin_params(g, e1), common.origin_params(g, e2)
+                        if not o1 or not o2 or (o1 & o2):
+                            continue
+                        judge(g, cc, e1, e2, o1, o2, f"{g.qualname}:{f.name}:zip({norm(e1)},{norm(e2)})", f"{g.module.rel}:{cc.lineno}", norm(cc))
+                    continue
             o1, o2 = (common.origin_params(f, a) for a in c.args)
             if not o1 or not o2 or (o1 & o2):
                 continue
-            cfg = cfg or CFG(f.node)
-            a1, a2 = norm(c.args[0]), norm(c.args[1])
-            ok = False
-            facts = list(cfg.guards_of_ast(c))
-            # a dominating call of a checking helper `check(len(a), len(b))` whose body raises when its two
-            # parameters differ establishes the same fact
-            dom = cfg.dominators().get(cfg.node_for(c).id, ())
-            for nd in cfg.nodes:
-                if nd.id in dom and nd.kind == "stmt" and isinstance(nd.ast, ast.Expr) and isinstance(nd.ast.value, ast.Call):
-                    hc = nd.ast.value
-                    r = resolve_callee(p, hc, f.module)
-                    if r and r[0] == "func":
-                        g = r[1]
-                        amap = {g.params[i]: a for i, a in enumerate(hc.args) if i < len(g.params)}
-                        for a_, b_ in _returns_only_if_equal(g):
-                            if a_ in amap and b_ in amap:
-                                facts.append((ast.Compare(left=amap[a_], ops=[ast.Eq()], comparators=[amap[b_]]), True))
-            for t, pol in facts:
-                if isinstance(t, ast.Compare) and len(t.ops) == 1 and isinstance(t.ops[0], (ast.Eq, ast.NotEq)):
-                    sides = {norm(t.left), norm(t.comparators[0])}
-                    lens = {f"len({x})" for x in (a1, a2)}
-                    # the compared sequences are the zipped ones or the parameters they are derived from
-                    alts1 = {f"len({x})" for x in {a1} | o1}
-                    alts2 = {f"len({x})" for x in {a2} | o2}
-                    if (sides & alts1) and (sides & alts2) and (isinstance(t.ops[0], ast.Eq) == pol):
-                        ok = True
-            rep.add("C03.R8", f"{f.qualname}:zip({a1},{a2})", f"{f.module.rel}:{c.lineno}", ok, f"reached only when len({a1}) == len({a2}) was established" if ok else f"`{norm(c)[:60]}` pairs values that come from different arguments ({sorted(o1)} / {sorted(o2)}) without a preceding length comparison: with one tensor too many or too few the surplus is silently dropped and a plausible result is returned instead of the documented ValueError")
+            judge(f, c, c.args[0], c.args[1], o1, o2, f"{f.qualname}:zip({norm(c.args[0])},{norm(c.args[1])})", f"{f.module.rel}:{c.lineno}", norm(c))
 
 
 def r9(p, rep):
@@ -354,8 +375,10 @@ def r9(p, rep):
 
     guards = []
     for n in walk_no_nested(f.node):
-        if isinstance(n, ast.If) and isinstance(n.test, ast.Compare) and len(n.test.ops) == 1 and isinstance(n.test.ops[0], ast.NotEq) and is_len(n.test.left) and is_len(n.test.comparators[0]) and input_side(n.test.left) and input_side(n.test.comparators[0]) and block_always_raises(n.body):
-            guards.append(n)
+        if isinstance(n, ast.If) and block_always_raises(n.body) and cfg.node_for(n) is not None:
+            t = cfg.expand(n.test, cfg.node_for(n))  # counts bound to locals first are written out
+            if isinstance(t, ast.Compare) and len(t.ops) == 1 and isinstance(t.ops[0], ast.NotEq) and is_len(t.left) and is_len(t.comparators[0]) and input_side(t.left) and input_side(t.comparators[0]):
+                guards.append(n)
     if not guards:
         rep.violation("C03.R9", f"{f.qualname}:input-arity-guard", f.loc, "no guard compares the number of given input expressions with the number the operation expects")
         return
